@@ -297,6 +297,47 @@ def run(ctx):
     ctx.sample({"services": metas[0][0], "steps": metas[0][3]})
 
 
+def underscore_names(ctx):
+    """An operation is selected by its name whatever the name looks like - a leading underscore, dunder shape, a Python
+    keyword - by attribute access and by subscript alike, at every selector level; and a name the port does not have
+    raises MethodNotFound also when it starts with an underscore."""
+    import suds
+    schema = '<xsd:element name="f"><xsd:complexType><xsd:sequence/></xsd:complexType></xsd:element>'
+    for opname in ("_ping", "__reset__", "_", "class", "__len__x"):
+        tr = wsdlkit.RecordingTransport(reply=None)
+        c = wsdlkit.client(wsdlkit.wsdl_doc(schema, "f", None, op=opname, action="urn:act:" + opname), transport=tr)
+        # (one service: the first subscript selects a port)
+        for form, sel in (("service.attr", lambda: getattr(c.service, opname)),
+                          ("port.attr", lambda: getattr(c.service["P"], opname)), ("port[item]", lambda: c.service["P"][opname]),
+                          ("index.attr", lambda: getattr(c.service[0], opname)), ("index[item]", lambda: c.service[0][opname])):
+            meta = {"stream": "underscore-names", "operation": opname, "selector": form}
+            ctx.case(common.canon(meta), True)
+            del tr.sent[:]
+            try:
+                m = sel()
+                m()
+                act = tr.sent[-1]["headers"].get("SOAPAction") if tr.sent else None
+                got = [type(m).__name__, act.decode() if isinstance(act, bytes) else act]
+            except Exception as e:
+                got = "%s: %s" % (type(e).__name__, e)
+            if got != ["Method", '"urn:act:%s"' % opname]:
+                ctx.fail("a selector expression does not resolve to the operation the WSDL declares under that name", meta,
+                         got, ["Method", '"urn:act:%s"' % opname])
+        for missing in ("_nosuch", "__nosuch__", "nosuch"):
+            for form, sel in (("service.attr", lambda: getattr(c.service, missing)), ("port[item]", lambda: c.service["P"][missing]),
+                              ("port.attr", lambda: getattr(c.service["P"], missing))):
+                meta = {"stream": "underscore-names", "operation": opname, "missing": missing, "selector": form}
+                ctx.case(common.canon(meta), True)
+                try:
+                    got = "returned %s" % type(sel()).__name__
+                except suds.MethodNotFound:
+                    got = "MethodNotFound"
+                except Exception as e:
+                    got = "%s: %s" % (type(e).__name__, e)
+                if got != "MethodNotFound":
+                    ctx.fail("an unknown operation name does not raise MethodNotFound", meta, got, "MethodNotFound")
+
+
 def unsupported_pair(ctx):
     """document/encoded is a style/use pair suds has no binding for: a WSDL that declares it for a direction does not
     load, or the direction has no binding - it is never presented and sent as another pair."""
@@ -333,6 +374,7 @@ def binding_kinds(ctx):
     ops = {"lit_enc": ("literal", "encoded"), "enc_lit": ("encoded", "literal"), "lit_lit": ("literal", "literal"),
            "enc_enc": ("encoded", "encoded")}
     unsupported_pair(ctx)
+    underscore_names(ctx)
     w = ['<?xml version="1.0"?><wsdl:definitions targetNamespace="%s" xmlns:wsdl="http://schemas.xmlsoap.org/wsdl/" '
          'xmlns:w="%s" xmlns:soap="http://schemas.xmlsoap.org/wsdl/soap/" xmlns:xsd="http://www.w3.org/2001/XMLSchema">'
          '<wsdl:message name="in"><wsdl:part name="a" type="xsd:string"/></wsdl:message>'
